@@ -587,13 +587,21 @@ func (t *Tracer) branch(fr *frame, b *ssa.BasicBlock, x *ssa.If, p *pstate, k fu
 		if side {
 			q = p.fork()
 		}
-		if known, ok := q.conds[x.Cond]; ok && known != side {
+		base, pol := x.Cond, true
+		for {
+			u, ok := base.(*ssa.UnOp)
+			if !ok || u.Op != token.NOT {
+				break
+			}
+			base, pol = u.X, !pol
+		}
+		if known, ok := q.conds[base]; ok && (known == pol) != side {
 			if side {
 				continue
 			}
 			return
 		}
-		q.conds[x.Cond] = side
+		q.conds[base] = side == pol
 		if !t.refine(fr, x.Cond, side, q) {
 			if side {
 				continue
@@ -905,7 +913,15 @@ func (t *Tracer) callCommon(fr *frame, in ssa.Instruction, cc *ssa.CallCommon, v
 		ev(Event{Kind: "enter", Name: fn.Name()})
 		nf := &frame{fn: fn, visited: map[*ssa.BasicBlock]bool{}, depth: fr.depth + 1, up: fr}
 		t.walk(nf, fn.Blocks[0], 0, p, func(q *pstate) {
-			// callee path ended (return / panic / loopback)
+			// callee path ended (return / panic / loopback); a constant boolean result decides the caller's branch on it
+			if val != nil && len(q.events) > 0 {
+				last := q.events[len(q.events)-1]
+				if last.Kind == "return" && last.Depth == nf.depth && len(last.Args) == 1 {
+					if b, ok := ConstBool(Unspill(last.Args[0])); ok {
+						q.conds[val] = b
+					}
+				}
+			}
 			cont(q)
 		})
 		return true
